@@ -18,7 +18,8 @@ def can_glue(a, b):
 
 
 def comment_text(r):
-    return "#" + r.choice(["", " c", " if then else end", " 'quote", " \"dq", " // pat", " do <<", "#", " é", " x = 1;", "\t"])
+    return "#" + r.choice(["", " c", " if then else end", " 'quote", " \"dq", " // pat", " do <<", "#", " é", " x = 1;", "\t",
+                           " a; nosuch_name(", "; error 'from comment';", " ) ] end", " \\", " \r inside"])
 
 
 def separator(r, mode, a, b):
